@@ -514,6 +514,8 @@ def check_case(ctx, W, case, pending):
     queued0 = set(q for q in res['init_state']['queue'] if q is not None)
     if any(e[2] < n_init and e[2] not in queued0 for e in befores): ctx.count('before-hook-of-object-queued-by-a-hook')
     if case['action'] == 'entity_flush' and len(befores) > 1: ctx.count('entity_flush:with-principal-objects')
+    if case['action'] == 'entity_flush' and res.get('target') is not None and res['init_state']['objs'][res['target']][0] == 'marked_to_delete':
+        ctx.count('entity_flush:of-a-deleted-object (= session flush)')
     inp = dict(brief(case), name=name)
     nested = any(op[0] == 'query' for e in case['script'] if e['phase'] == 'after' for c in (e['calls'] + [e['rest']]) for op in c)
     if res['error'] and res['error'].startswith('unexpected:'):
